@@ -40,6 +40,11 @@ namespace BitSerializer::Detail
 			return true;
 		}
 
+		if (pos != mStreamPos)
+		{
+			// The stream is left in the eof/fail state after the last chunk has been read, seekg() does nothing in this state
+			mStream.clear();
+		}
 		if (pos == mStreamPos || !mStream.seekg(static_cast<std::streamoff>(pos)).fail())
 		{
 			mStreamPos = pos;
